@@ -350,6 +350,7 @@ fn execute(plan: &Plan, prof: &Profile, sched_rng: &mut Rng, forced: Option<&[St
     let mut burst_left: u64 = 0;
     let mut forced_pos = 0usize;
     let mut two_parties: Option<String> = None;
+    let mut order_violation: Option<String> = None;
     let mut causes: Vec<String> = Vec::new();
     let timeouts = prof.timeouts;
     let taken = {
@@ -359,6 +360,7 @@ fn execute(plan: &Plan, prof: &Profile, sched_rng: &mut Rng, forced: Option<&[St
         let digests_ref = &mut digests;
         let tokens_ref = &mut sched_tokens;
         let two_ref = &mut two_parties;
+        let order_ref = &mut order_violation;
         let causes_ref = &mut causes;
         let mut inside: Vec<(usize, usize, &'static str)> = Vec::new();
         let mut prev_states: Vec<u8> = (0..main.n).map(|k| main.slot(k).0).collect();
@@ -415,6 +417,17 @@ fn execute(plan: &Plan, prof: &Profile, sched_rng: &mut Rng, forced: Option<&[St
                         let i = others[pick_rng.below(others.len() as u64) as usize];
                         last = Some(waiting[i].0);
                         burst_left = pick_rng.range(15, 90);
+                        return i;
+                    }
+                }
+                // a task parked right before its retry re-queue (site 16) or its release (site 15) has sampled the
+                // status a few instructions ago: now and then let the others (RX / TX) run a stretch first
+                if let Some(ppos) = waiting.iter().position(|(_, site)| matches!(*site, 15 | 16)) {
+                    if waiting.len() > 1 && pick_rng.chance(1, 2) {
+                        let others: Vec<usize> = (0..waiting.len()).filter(|i| *i != ppos).collect();
+                        let i = others[pick_rng.below(others.len() as u64) as usize];
+                        last = Some(waiting[i].0);
+                        burst_left = pick_rng.range(5, 60);
                         return i;
                     }
                 }
@@ -484,6 +497,19 @@ fn execute(plan: &Plan, prof: &Profile, sched_rng: &mut Rng, forced: Option<&[St
                         }
                     }
                 }
+                // lifecycle order (independent of the model): every observed status change must be an edge of the
+                // documented lifecycle (incl. the failure / retry / abandonment edges and RX handing back a claim, RxBusy -> Sent, fix 646e830f). A release store over
+                // Sending / RxBusy is the known abandonment-inside-the-window class and is attributed below.
+                for (k, a, b) in &changed {
+                    let edge = matches!(
+                        (*a, *b),
+                        (0, 1) | (1, 2) | (1, 0) | (2, 3) | (3, 4) | (3, 2) | (4, 2) | (4, 5) | (5, 6) | (5, 4) | (6, 7) | (7, 0) | (2, 0) | (4, 0) | (6, 0)
+                    );
+                    let known_release = site == 15 && (*a == 3 || *a == 5) && *b == 0;
+                    if !edge && !known_release && order_ref.is_none() {
+                        *order_ref = Some(format!("slot {k}: status {a} -> {b} (site {site}, thread {tid}) is not an edge of the lifecycle"));
+                    }
+                }
                 // plain stores that overwrite a state in which another party is inside
                 if site == 15 || site == 16 || site == 11 {
                     for (_k, a, _b) in &changed {
@@ -537,7 +563,16 @@ fn execute(plan: &Plan, prof: &Profile, sched_rng: &mut Rng, forced: Option<&[St
     // same symptom without such a cause is still reported under its own key.
     causes.sort();
     causes.dedup();
-    let cause_suffix = if causes.is_empty() { String::new() } else { "@store-over-inside".to_string() };
+    // Only the RELEASE store (final timeout / drop of the future, site 15) over Sending / RxBusy is the known
+    // class. The retry and the mark stores were turned into compare-exchanges by fix: commits; if one of them
+    // overwrites a state again, the symptom is reported under its own (unlisted) suffix.
+    let cause_suffix = if causes.is_empty() {
+        String::new()
+    } else if causes.iter().all(|c| c.starts_with("release-store-over-")) {
+        "@store-over-inside".to_string()
+    } else {
+        "@retry-or-mark-store-over-inside".to_string()
+    };
     let real_rep: &mut Report = rep;
     let mut staged: Vec<(String, String)> = Vec::new();
     struct Stage<'a>(&'a mut Vec<(String, String)>);
@@ -549,6 +584,12 @@ fn execute(plan: &Plan, prof: &Profile, sched_rng: &mut Rng, forced: Option<&[St
     let mut rep = Stage(&mut staged);
     if let Some(t) = &two_parties {
         rep.fail(&format!("{}/two-parties", prof.key), t, &line);
+    }
+    if let Some(t) = &order_violation {
+        rep.fail(&format!("{}/lifecycle-order", prof.key), t, &line);
+    }
+    for c in causes.iter().filter(|c| !c.starts_with("release-store-over-")) {
+        rep.fail(&format!("{}/store-over-live-state", prof.key), &format!("{c}: a plain store overwrote a status another party had set"), &line);
     }
     let sh = shared.lock().unwrap();
     for (tid, l) in logs.iter().enumerate() {
